@@ -7,7 +7,7 @@ HERE = os.path.dirname(os.path.abspath(__file__))
 CHECKS = {
  "C06": (True, "payflow", "model_checking",
    "bounded exhaustive histories of commitment updates on two channels of one real node with a ghost ledger of accepted contents",
-   "Every history of <= 4 (6) letters over: approve a keysend for H1, per channel validate-holder / revoke / sign-counterparty / counterparty-revokes with HTLC sets over the approved hash H1 (half, full, over the allowance, two parts) and the unapproved hash H2 (alone, or covered by incoming value), preimage disclosure, restart; plus a narrower counterparty-side-only search to depth 6. After every accepted update the ledger inequality of the statement is evaluated in u128, and an accepted update that introduces an unbacked outgoing HTLC is a violation.",
+   "Every history of <= 4 (6) letters over: approve a keysend for H1, per channel validate-holder / revoke / sign-counterparty / counterparty-revokes with HTLC sets over the approved hash H1 (half, full, over the allowance, two parts) and the unapproved hash H2 (alone, or covered by incoming value), preimage disclosure, restart; plus a narrower counterparty-side-only search to depth 6, a search that starts with the first part of the payment locked into both commitments, and one in which the approval is declined by the node-wide velocity limit (a declined hash must stay unbacked). After every accepted update the ledger inequality of the statement is evaluated in u128, and an accepted update that introduces an unbacked outgoing HTLC is a violation.",
    "In-flight value is defined on the two current commitments of each channel (max of views outgoing, min of views incoming), as fixed in DESIGN 3.4.",
    "3.4"),
  "C17": (True, "macenum", "model_checking",
@@ -27,7 +27,7 @@ CHECKS = {
    "5.3"),
  "C15": (True, "nodemc", "model_checking",
    "bounded exhaustive histories of open/new/forget/heartbeat/block macro-steps/disconnect/restart on a real node with ghost predicates",
-   "Every history of <= 5 (7) letters in seven scenarios (life cycle from nothing, mutual close, funding double-spend, unilateral close with HTLC sweeps, all outputs swept, three channel ids created / forgotten in any order, a prunable channel with a permanent id), over the plain and the cloud store: NewChannel, ForgetChannel, GetHeartbeat, blocks carrying funding / double-spend / mutual close / sweeps, macro-steps of 1, 98 and 99 empty blocks (straddling the 100-block depth), disconnects and restarts; after every letter each ready channel must be present live and in the store unless a forget was requested and the close is buried >= 100 on the harness's own copy of the best chain; a NewChannel at or below a forgotten id must fail.",
+   "Every history of <= 5 (7) letters in eight scenarios (life cycle from nothing, mutual close, funding double-spend, unilateral close with HTLC sweeps, all outputs swept, only the HTLC outputs swept, three channel ids created / forgotten in any order, a prunable channel with a permanent id; the unilateral ones for static-remotekey and anchors channels and for the holder's and the counterparty's commitment), over the plain and the cloud store: NewChannel, ForgetChannel, GetHeartbeat, blocks carrying funding / double-spend / mutual close / sweeps, macro-steps of 1, 98 and 99 empty blocks (straddling the 100-block depth), disconnects and restarts; after every letter each ready channel must be present live and in the store unless a forget was requested and the close is buried >= 100 on the harness's own copy of the best chain; a NewChannel at or below a forgotten id must fail.",
    "Depth-bounded (not closed): the bounded space of histories is covered completely.",
    "6.3"),
  "C13": (True, "chain13", "model_checking",
@@ -102,7 +102,7 @@ CHECKS = {
    "7.4"),
  "C20": (True, "concur", "model_checking",
    "stateless model checking of the real Node under shuttle's runtime with an own preemption-bounded depth-first scheduler (iterative context bounding); linearizability by brute force against all sequential orders",
-   "vls-core is built with --cfg vls_verif so that every Mutex of its prelude (node state, channel map, channel slots, tracker, monitor state, stores) is shuttle's. For each of ~110 scenarios (every unordered pair of 14 request kinds - commitment updates, forget/new/setup channel, balance, heartbeat, keysend, on-chain check and signature, block with the channel's close (compact and streamed), empty block, allowlist - plus the single-channel races validate||revoke, sign-holder||revoke, sign-counterparty||counterparty-revocation; thorough adds triples) every schedule of the request threads with <= 1 (2) preemptions is executed to completion on a freshly built node, and <= 2 (3) preemptions as far as the budget goes; a schedule that cannot complete is a deadlock, and the tuple (replies, fingerprint of live state and store) must equal that of some sequential order of the same requests.",
+   "vls-core is built with --cfg vls_verif so that every Mutex of its prelude (node state, channel map, channel slots, tracker, monitor state, stores) is shuttle's. For each of ~110 scenarios (every unordered pair of 14 request kinds - commitment updates, forget/new/setup channel, balance, heartbeat, keysend, on-chain check and signature, block with the channel's close (compact and streamed), empty block, allowlist - plus the single-channel races validate||revoke, sign-holder||revoke, sign-counterparty||counterparty-revocation, two allowlist updates, a channel used while it is being set up, two channels paying the same invoice; thorough adds triples) every schedule of the request threads with <= 1 (2) preemptions is executed to completion on a freshly built node, and <= 2 (3) preemptions as far as the budget goes; a schedule that cannot complete is a deadlock, and the tuple (replies, fingerprint of live state and store) must equal that of some sequential order of the same requests.",
    "Scheduling points are mutex operations (sequentially consistent); locks taken directly from std (redb store) are not in the scenarios. Replaying a prefix with a different enabled set is a machinery error.",
    "8"),
 }
